@@ -177,32 +177,28 @@ Definition ex_target : json :=
                        ("args", JList [JStr "x"; JBool false])])].
 
 (* a server-decorated live object: extra keys, reordered set / keyed lists, an extra element *)
-Definition ex_live : json :=
-  JMap [("status", JMap [("ready", JBool true)]);
-        ("metadata", JMap [("uid", JStr "u"); ("labels", JMap [("app", JStr "x"); ("z", JStr "y")]);
-                           ("name", JStr "w")]);
-        ("spec", JMap [("tags", JList [JInt 2; JStr "a"]);
-                       ("ports", JList [JMap [("name", JStr "extra")];
-                                        JMap [("name", JStr "admin"); ("port", JInt 81); ("proto", JStr "TCP")];
-                                        JMap [("name", JStr "http"); ("port", JInt 80)]]);
-                       ("secret", JStr "rotated-by-someone");
-                       ("replicas", JInt 0);
-                       ("args", JList [JStr "x"; JBool false])])].
+Definition ex_live_spec : list (string * json) :=
+  [("tags", JList [JInt 2; JStr "a"]);
+   ("ports", JList [JMap [("name", JStr "extra")];
+                    JMap [("name", JStr "admin"); ("port", JInt 81); ("proto", JStr "TCP")];
+                    JMap [("name", JStr "http"); ("port", JInt 80)]]);
+   ("secret", JStr "rotated-by-someone");
+   ("replicas", JInt 0);
+   ("args", JList [JStr "x"; JBool false])].
+
+Definition ex_live_top : list (string * json) :=
+  [("status", JMap [("ready", JBool true)]);
+   ("metadata", JMap [("uid", JStr "u"); ("labels", JMap [("app", JStr "x"); ("z", JStr "y")]);
+                      ("name", JStr "w")]);
+   ("spec", JMap ex_live_spec)].
+
+Definition ex_live : json := JMap ex_live_top.
 
 Definition ex_la : json := strip ex_target.
 
 (* the falsy leaf spec.replicas = 0 turned null *)
 Definition ex_live_dev : json :=
-  JMap [("status", JMap [("ready", JBool true)]);
-        ("metadata", JMap [("uid", JStr "u"); ("labels", JMap [("app", JStr "x"); ("z", JStr "y")]);
-                           ("name", JStr "w")]);
-        ("spec", JMap [("tags", JList [JInt 2; JStr "a"]);
-                       ("ports", JList [JMap [("name", JStr "extra")];
-                                        JMap [("name", JStr "admin"); ("port", JInt 81); ("proto", JStr "TCP")];
-                                        JMap [("name", JStr "http"); ("port", JInt 80)]]);
-                       ("secret", JStr "rotated-by-someone");
-                       ("replicas", JNull);
-                       ("args", JList [JStr "x"; JBool false])])].
+  JMap (set_key "spec" (JMap (set_key "replicas" JNull ex_live_spec)) ex_live_top).
 
 Example C05_nonvacuous :
   wf ex_target = true /\ good ex_target = true /\ no_nulls ex_target = true /\ ann_free ex_target = true /\
@@ -212,11 +208,18 @@ Example C05_nonvacuous :
   (exists p, prepare_for_api ex_target = Done p /\
      vmatch ex_target (merge_patch ex_live_dev (body p)) (Some (recorded p)) false = O_match).
 Proof.
-  repeat split; try (vm_compute; reflexivity).
-  - eapply (dev_key _ _ _ "spec" _ _ _ _ [] [] []); try (vm_compute; reflexivity).
+  split; [vm_compute; reflexivity|].
+  split; [vm_compute; reflexivity|].
+  split; [vm_compute; reflexivity|].
+  split; [vm_compute; reflexivity|].
+  split; [vm_compute; reflexivity|].
+  split.
+  { unfold ex_live_dev, ex_live, ex_target.
+    eapply (dev_key _ _ _ "spec" _ _ _ _ [] [] []); try (vm_compute; reflexivity).
     eapply (dev_key _ _ _ "replicas" (JInt 0) (JInt 0) JNull []); try (vm_compute; reflexivity).
-    apply dev_leaf; reflexivity.
-  - eexists. split; [vm_compute; reflexivity|]. vm_compute. reflexivity.
+    apply dev_leaf; reflexivity. }
+  split; [vm_compute; reflexivity|].
+  eexists. split; vm_compute; reflexivity.
 Qed.
 
 Print Assumptions C05_drift_detected.
